@@ -19,7 +19,8 @@ position refines `std::set::erase` of the designated element.  `C04_refines_hist
 these operations from every state that satisfies the invariant, `C04_refines_from_empty`: from the empty set — this is the clause
 "growth beyond N, draining back to empty and refilling" of the property, for all histories and all N at once, which
 `C04_history` (insertions only) and the per-operation theorems of C04b/C04c did not state.  Membership, `size()` and `empty()` after
-any history follow (`C04_refines_observe`). -/
+any history follow (`C04_refines_observe`); `C04_refines_compare`: two sets with their own comparator objects, each reached by its own
+history, are compared by the generated `==` / `!=` / `<` / `>=` as the two `std::set`s of those histories are. -/
 namespace AmcVerif.Props.C04
 open AmcVerif AmcVerif.FS AmcVerif.Sets AmcVerif.Bridge.SmallSet
 variable {α : Type} {lt : α → α → Bool}
@@ -219,6 +220,24 @@ theorem C04_refines_observe (hswo : SWO lt) (N : Nat) (s : SSet α) (h : s.Inv l
   · intro k
     obtain ⟨r, hg, hiff⟩ := C04_gen_contains hswo N s h k
     exact ⟨r, hg, hiff.trans (hasEquiv_perm hr.2 k).symm⟩
+
+/-- **comparison results after any two histories**: two SmallSets, each with its OWN comparator object (`lt`, `lt_o`), each
+    reached by its own history from the empty set, are compared by the generated `operator==` / `!=` / `<` / `>=` exactly as the two
+    `std::set`s those histories produce are compared (element-wise `==`, lexicographic `<` of the two strictly increasing
+    sequences) — whatever states (inline, large, drained) the two SmallSets ended in -/
+theorem C04_refines_compare {lt_o : α → α → Bool} (hswo : SWO lt) (hswo_o : SWO lt_o) (N : Nat) (ops ops_o : List (SOp α))
+    (eqT ltT : α → α → Bool) :
+    ∃ s outs o outs_o, runG lt N ⟨[], []⟩ ops = some (s, outs) ∧ runG lt_o N ⟨[], []⟩ ops_o = some (o, outs_o)
+      ∧ Gen.SmallSet.op_eq lt N s lt_o o eqT = some (Gen.SmallSet.vecEq eqT (runA lt [] ops).1 (runA lt_o [] ops_o).1, 0)
+      ∧ Gen.SmallSet.op_ne lt N s lt_o o eqT = some (!Gen.SmallSet.vecEq eqT (runA lt [] ops).1 (runA lt_o [] ops_o).1, 0)
+      ∧ Gen.SmallSet.op_lt lt N s lt_o o ltT = some (Gen.SmallSet.vecLess ltT (runA lt [] ops).1 (runA lt_o [] ops_o).1, 0)
+      ∧ Gen.SmallSet.op_ge lt N s lt_o o ltT = some (!Gen.SmallSet.vecLess ltT (runA lt [] ops).1 (runA lt_o [] ops_o).1, 0) := by
+  obtain ⟨s, outs, hg, hinv, _, hrep⟩ := C04_refines_from_empty hswo N ops
+  obtain ⟨o, outs_o, hg_o, hinv_o, _, hrep_o⟩ := C04_refines_from_empty hswo_o N ops_o
+  obtain ⟨e1, e2⟩ := C04_gen_eq_repr hswo hswo_o N s o hinv hinv_o eqT _ _ hrep.1 hrep.2 hrep_o.1 hrep_o.2
+  refine ⟨s, outs, o, outs_o, hg, hg_o, e1, e2, ?_, ?_⟩
+  · rw [op_lt_eq]; simp only [ltS, ← Rep_unique hswo N s hinv _ hrep, ← Rep_unique hswo_o N o hinv_o _ hrep_o]
+  · rw [op_ge_eq]; simp only [ltS, ← Rep_unique hswo N s hinv _ hrep, ← Rep_unique hswo_o N o hinv_o _ hrep_o]
 
 /-! ### the hypotheses are satisfiable and the run is not trivial: N = 2, grow at the third insertion, drain to empty (back to the
 inline state), refill -/
